@@ -72,8 +72,10 @@ ASSUMPTIONS = ["pthread_spin_lock (_con_spl) gives mutual exclusion: a critical 
                "virtual clock frozen during a concurrent phase (SendingTime constant); plain messages (no custom seqnum / "
                "no_increment / SequenceReset / preset MsgSeqNum) with SOH- and NUL-free values"]
 RULE = ("one real session per case (initiator / acceptor, memory / file / no persister, start numbers 1, 2, 9.., 99.., 999..), "
-        "process models pm_thread, pm_pipeline and a few pm_coro; a CONC operation starts 1-8 real threads with 1-500 "
-        "send / send_batch calls each (batches of 1-4, application messages of four types and administrative messages, every "
+        "process models pm_thread, pm_pipeline and a few pm_coro; a CONC operation starts 1-8 real threads with 1-1000 calls "
+        "each drawn from ALL public send entry points of Session, mixed across and within threads -- send(Message*) with "
+        "destroy true / false, the by-reference send(Message&), send_batch with destroy true / false -- plus contention "
+        "cases (4-8 threads x 500-1000 sends without yields, by reference only / against the other entry points) (batches of 1-4, application messages of four types and administrative messages, every "
         "body carries thread id and index), at most 4000 messages; small cases aimed at the boundaries (empty program, one "
         "thread, batch of one, two CONC phases, a foreign single inside a batch); malformed operations. non-trivial = at "
         "least 2 threads with messages and at least 20 messages on the wire; distinct = distinct case lines")
@@ -266,18 +268,20 @@ def msg_spec(rng, tid, idx, now=S.T0, admin_share=0.1):
     return S.spec(t, f)
 
 
-def gen_prog(rng, tid, ncalls, budget, batch_share=0.25):
-    """ncalls calls using at most `budget` messages; returns (text, messages used)"""
+def gen_prog(rng, tid, ncalls, budget, batch_share=0.25, kinds="SSPRR", bkinds="BBC", admin_share=0.1):
+    """ncalls calls using at most `budget` messages, drawn from ALL public send entry points of Session
+    (S send(Message*, destroy), P send(Message*, keep), R send(Message&), B/C send_batch destroy / keep);
+    returns (text, messages used)"""
     calls, used, idx = [], 0, 0
     for _ in range(ncalls):
         if used >= budget:
             break
-        if rng.random() < batch_share:
+        if bkinds and rng.random() < batch_share:
             k = min(rng.choice([1, 2, 2, 3, 3, 4]), budget - used)
-            calls.append("B:" + ";".join(msg_spec(rng, tid, idx + j) for j in range(k)))
+            calls.append(rng.choice(bkinds) + ":" + ";".join(msg_spec(rng, tid, idx + j, admin_share=admin_share) for j in range(k)))
         else:
             k = 1
-            calls.append("S:" + msg_spec(rng, tid, idx))
+            calls.append(rng.choice(kinds) + ":" + msg_spec(rng, tid, idx, admin_share=admin_share))
         idx += k
         used += k
     return ("+".join(calls) if calls else "-"), used
@@ -294,17 +298,26 @@ def start_op(rng, pm, san=None, role=None, persist=None):
     return " ".join(p)
 
 
-def conc_op(rng, nthreads, lo, hi, budget=4000, tick=False, batch_share=0.25):
-    toks = ["CONC", "y=%d" % rng.randrange(1, 10**6)]
+def conc_op(rng, nthreads, lo, hi, budget=4000, tick=False, batch_share=0.25, yields=True, **kw):
+    toks = ["CONC"]
+    if yields:
+        toks.append("y=%d" % rng.randrange(1, 10**6))
     if tick:
         toks.append("tick=%d" % rng.choice([1, 5, 20]))
     left = budget
     for t in range(nthreads):
         share = max(1, left // (nthreads - t))
-        txt, used = gen_prog(rng, t, rng.randint(lo, hi), share, batch_share)
+        txt, used = gen_prog(rng, t, rng.randint(lo, hi), share, batch_share, **kw)
         left -= used
         toks.append(txt)
     return " ".join(toks)
+
+
+def contention_case(rng, pm, nthreads, ncalls, kinds, bkinds="", san=None):
+    """many short calls and no yields: the threads hammer the session; `kinds` says which entry points"""
+    st = start_op(rng, pm, san, persist=rng.choice(["mem", "none"]))
+    return st + "|" + conc_op(rng, nthreads, ncalls, ncalls, batch_share=0.15 if bkinds else 0.0, yields=False,
+                              kinds=kinds, bkinds=bkinds, admin_share=0.0)
 
 
 def big_case(rng, pm, san=None, lo=50, hi=500, nthreads=None, tick=False):
@@ -319,7 +332,7 @@ def big_case(rng, pm, san=None, lo=50, hi=500, nthreads=None, tick=False):
     if tick:
         ss = re.search(r" ss=(\d+)", st)
         ops.append("IN " + S.fixmsg("A", 1, "SRV", "CLI", [(98, 0), (108, 30)]).hex())
-    ops.append(conc_op(rng, n, lo, hi, tick=tick))
+    ops.append(conc_op(rng, n, lo, hi, tick=tick, kinds="SSSPR" if pm == "pipeline" else "SSPRR"))
     return "|".join(ops)
 
 
@@ -340,6 +353,10 @@ def small_cases(rng, pm):
         singles = "+".join("S:" + d(1, i) for i in range(6))
         cs.append("%s|CONC y=%d %s %s %s" % (st("I", "mem", " ss=%d" % (10 ** k - 2)), rng.randrange(1, 999), "+".join([batch] * 1 + ["B:" + ";".join(d(0, k + j * k + i) for i in range(k)) for j in range(5)]), singles,
                                          "+".join("S:" + d(2, i) for i in range(6))))
+    # every entry point side by side: by reference against by pointer (deleted / kept) against batches (deleted / kept)
+    cs.append("%s|CONC R:%s+R:%s S:%s+P:%s B:%s;%s+C:%s;%s R:%s+C:%s" %
+              (st("I", "file"), d(0, 0), hb(0, 1), d(1, 0), d(1, 1), d(2, 0), d(2, 1), d(2, 2), hb(2, 3), d(3, 0), d(3, 1)))
+    cs.append("%s|CONC %s %s" % (st("A"), "+".join("R:" + d(0, i) for i in range(8)), "+".join("R:" + d(1, i) for i in range(8))))
     # two concurrent phases on one session
     cs.append("%s|CONC S:%s S:%s|CONC y=3 B:%s;%s S:%s" % (st(), d(0, 0), d(1, 0), d(0, 1), d(0, 2), d(1, 1)))
     # sequential operations before and after (thread model only: the base harness has no writer wait for them)
@@ -370,11 +387,24 @@ def gen_cases(rng, tier):
         pm = rng.choice(["thread", "thread", "pipeline", "pipeline", "coro"])
         cs.append(Case(big_case(rng, pm, lo=5, hi=60), "medium-" + pm))
     # the sizes of the plan: 2-8 threads x 50-500 calls
-    for _ in range(60 if thorough else 8):
+    for _ in range(60 if thorough else 5):
         pm = rng.choice(["thread", "pipeline"])
         cs.append(Case(big_case(rng, pm), "big-" + pm))
-    for pm in ("thread", "pipeline"):
+    for pm in (("thread", "pipeline") if thorough else ("pipeline",)):
         cs.append(Case(big_case(rng, pm, lo=480, hi=500, nthreads=8), "big-" + pm))
+    # contention: 4-8 threads x 500-1000 single sends without yields; by reference only, by reference against the other
+    # entry points, one entry point per thread -- a path into send_process that misses _con_spl shows here
+    cs.append(Case(contention_case(rng, "thread", 4, 1000, "R"), "contention-ref"))
+    if thorough:
+        cs.append(Case(contention_case(rng, "thread", 8, 500, "R"), "contention-ref"))
+        cs.append(Case(contention_case(rng, "thread", 6, 650, "SP", "BC"), "contention-ptr"))
+    cs.append(Case(contention_case(rng, "thread", 4, 600, "RS"), "contention-mixed"))
+    cs.append(Case(contention_case(rng, "thread", 8, 300, "RSP", "BC"), "contention-mixed"))
+    cs.append(Case(contention_case(rng, "coro", 6, 400, "RRSP"), "contention-mixed"))
+    if thorough:
+        for _ in range(12):
+            cs.append(Case(contention_case(rng, rng.choice(["thread", "thread", "coro"]), rng.randint(4, 8), rng.choice([400, 500]),
+                                           rng.choice(["R", "RS", "RSP", "RRSP"]), rng.choice(["", "BC"])), "contention-mixed"))
     if thorough:
         # the same under ThreadSanitizer; a few repetitions of every shape (the schedule differs every time)
         for rep in range(10):
